@@ -7,5 +7,6 @@ CONSTANTS
   MaxSeg = 2
   Caps = {1, 2}
   MaxRaw = 2
+  Sim = FALSE
 INVARIANTS Export RoundTrip UnknownCodeRejected
 CHECK_DEADLOCK FALSE
